@@ -4,7 +4,9 @@ import (
 	"fmt"
 	"go/ast"
 	"go/constant"
+	"go/token"
 	"go/types"
+	"sort"
 	"strings"
 
 	"golang.org/x/tools/go/packages"
@@ -463,4 +465,606 @@ func (c *Ctx) exprBytesText(pk *packages.Package, e ast.Expr) (string, bool) {
 		return "", false
 	}
 	return c.byteVarText(pk, v)
+}
+
+// R01.35: a block is not unwrapped around a function declaration.
+func (c *Ctx) r0135(pk *packages.Package) {
+	const rule = "R01.35"
+	c.R.Rule(rule, "a function declaration is not a statement: `if(a)function f(){}` is accepted in sloppy mode only (Annex B.3.4, and not for async functions or generators) and is a syntax error in strict mode, classes and modules; in strict mode a function declared in a block is local to it. In js.optimizeStmt every return that unwraps a block with one statement — `return optimizeStmt(blockStmt.List[0])` — is dominated by the false outcome of a type assertion of that statement to *js.FuncDecl")
+	info := pk.TypesInfo
+	fd := c.fn(rule, pk, "optimizeStmt")
+	if fd == nil {
+		return
+	}
+	g := c.graph(pk, fd)
+	n := 0
+	for _, y := range g.Nodes {
+		rs := retStmt(y)
+		if rs == nil || len(rs.Results) != 1 {
+			continue
+		}
+		ce, ok := ast.Unparen(rs.Results[0]).(*ast.CallExpr)
+		if !ok || len(ce.Args) != 1 {
+			continue
+		}
+		ie, ok := ast.Unparen(ce.Args[0]).(*ast.IndexExpr)
+		if !ok || !strings.HasSuffix(nospace(str(ie.X)), ".List") {
+			continue
+		}
+		n++
+		elem := nospace(str(ie))
+		good := false
+		for _, f := range g.DomFacts(y) {
+			if f.Value || f.Test.Kind != flow.KCond {
+				continue
+			}
+			id, ok := ast.Unparen(f.Test.Expr).(*ast.Ident)
+			if !ok {
+				continue
+			}
+			if d := c.singleDef(pk, id); d != nil {
+				if ta, ok := ast.Unparen(d).(*ast.TypeAssertExpr); ok && ta.Type != nil && strings.HasSuffix(nospace(str(ta.Type)), "js.FuncDecl") && nospace(str(ta.X)) == elem {
+					good = true
+				}
+			}
+		}
+		_ = info
+		c.R.Check(good, rule, fmt.Sprintf("js.optimizeStmt/unwrapped single statement#%d is not a function declaration", n), c.pos(rs), "behind the failed assertion "+elem+".(*js.FuncDecl)",
+			"the only statement of a block replaces the block without a test that it is not a function declaration: `if(a){function f(){}}` becomes `if(a)function f(){}`, a syntax error in strict mode (and for async functions everywhere), and `{function f(){}}` loses the scope of f")
+	}
+	c.R.Floor(rule, "returns that unwrap a one-statement block", n, 1)
+}
+
+// R09.22: a string whose escapes decode to `$` or `{` does not become a template literal.
+func (c *Ctx) r0922(pk *packages.Package) {
+	const rule = "R09.22"
+	c.R.Rule(rule, "js.minifyString counts, per escape syntax (\\\\x, \\\\u00.., \\\\u{..}, legacy octal), the escapes that decode to a quote or a backtick in order to choose the cheapest delimiter. A template literal also gives meaning to `${`: an escape that decodes to `$` (24, octal 44) or `{` (7b, octal 173) must rule the backtick out, since replaceEscapes decodes it (`'\\\\n\\\\n\\\\n$\\\\x7B'` → a template with an unterminated substitution). Sibling agreement: every if-chain of minifyString that recognises the backtick's code (`6`,`0` / `1`,`4`,`0`) has an arm whose condition compares with the digits of both codes and whose body clears the boolean parameter that allows templates")
+	info := pk.TypesInfo
+	fd := c.fn(rule, pk, "minifyString")
+	if fd == nil {
+		return
+	}
+	// the boolean parameter
+	var allow types.Object
+	for _, f := range fd.Type.Params.List {
+		if b, ok := info.TypeOf(f.Type).Underlying().(*types.Basic); ok && b.Kind() == types.Bool && len(f.Names) == 1 {
+			allow = info.Defs[f.Names[0]]
+		}
+	}
+	if allow == nil {
+		c.R.Unres(rule, "js.minifyString/template switch", c.pos(fd), "no boolean parameter found")
+		return
+	}
+	n := 0
+	seen := map[*ast.IfStmt]bool{}
+	ast.Inspect(fd.Body, func(x ast.Node) bool {
+		ifs, ok := x.(*ast.IfStmt)
+		if !ok || seen[ifs] {
+			return true
+		}
+		// the arms of this chain
+		type arm struct {
+			cond ast.Expr
+			body *ast.BlockStmt
+		}
+		var arms []arm
+		for cur := ifs; cur != nil; {
+			seen[cur] = true
+			arms = append(arms, arm{cur.Cond, cur.Body})
+			cur = elseIf(cur)
+		}
+		// does an arm of this chain (not a nested chain) count a backtick found through an escape?
+		octal, hexlike := false, false
+		for _, a := range arms {
+			counts := false
+			for _, st := range a.body.List {
+				if inc, ok := st.(*ast.IncDecStmt); ok && strings.Contains(strings.ToLower(nospace(str(inc.X))), "backtick") {
+					counts = true
+				}
+			}
+			if !counts {
+				continue
+			}
+			chars, _, _ := c.constsIn(pk, a.cond)
+			if chars['`'] {
+				continue // the literal character, not an escape
+			}
+			if chars['1'] && chars['4'] && chars['0'] {
+				octal = true
+			} else if chars['6'] && chars['0'] {
+				hexlike = true
+			}
+		}
+		if !octal && !hexlike {
+			return true
+		}
+		n++
+		good := false
+		for _, a := range arms {
+			clears := false
+			for _, st := range a.body.List {
+				if as, ok := st.(*ast.AssignStmt); ok && len(as.Lhs) == 1 && len(as.Rhs) == 1 {
+					if id, ok := as.Lhs[0].(*ast.Ident); ok && info.Uses[id] == allow && nospace(str(as.Rhs[0])) == "false" {
+						clears = true
+					}
+				}
+			}
+			if !clears {
+				continue
+			}
+			chars, _, _ := c.constsIn(pk, a.cond)
+			if hexlike && chars['2'] && chars['4'] && chars['7'] && (chars['b'] || chars['B']) {
+				good = true
+			}
+			if octal && chars['4'] && chars['1'] && chars['7'] && chars['3'] {
+				good = true
+			}
+		}
+		c.R.Check(good, rule, fmt.Sprintf("js.minifyString/escape syntax#%d rules the template out for `$` and `{`", n), c.pos(ifs), "an arm for the codes of `$` and `{` clears the template switch",
+			"this escape syntax is scanned for quotes and the backtick but not for `$` (24 / octal 44) and `{` (7b / octal 173): a string with such an escape can become a template literal in which the decoded characters form `${`")
+		return true
+	})
+	c.R.Floor(rule, "escape syntaxes scanned for the backtick", n, 4)
+}
+
+// R09.23: an `export default` expression does not start with the function or class keyword.
+func (c *Ctx) r0923(pk *packages.Package) {
+	const rule = "R09.23"
+	c.R.Rule(rule, "ECMA-262 §16.2.3: after `export default` the tokens `function`, `async function` and `class` start a declaration. In jsMinifier.minifyStmt, case *js.ExportStmt, every print of the exported expression (minifyExpr(stmt.Decl, …)) that is not the declaration form itself — reached under a successful assertion of stmt.Decl to *js.FuncDecl / *js.ClassDecl — is reached through a test by a predicate of the module that walks to the leftmost operand (its body mentions *js.FuncDecl, *js.ClassDecl and *js.CallExpr); the printer drops the parentheses of `export default (function(){})()` otherwise and the output is a syntax error")
+	info := pk.TypesInfo
+	fd := c.fn(rule, pk, "jsMinifier.minifyStmt")
+	if fd == nil {
+		return
+	}
+	g := c.graph(pk, fd)
+	head := caseHead(g, "*js.ExportStmt")
+	if head == nil {
+		c.R.Unres(rule, "js.jsMinifier.minifyStmt/case *js.ExportStmt", c.pos(fd), "case not found")
+		return
+	}
+	leftmost := func(ce *ast.CallExpr) bool {
+		_, d := c.calleeDecl(info, ce)
+		if d == nil || d.Body == nil {
+			return false
+		}
+		s := nospace(c.src(d.Body))
+		return strings.Contains(s, "*js.FuncDecl") && strings.Contains(s, "*js.ClassDecl") && strings.Contains(s, "*js.CallExpr")
+	}
+	avoid := func(q *flow.Node) bool {
+		if (q.Kind != flow.KTrue && q.Kind != flow.KFalse) || q.Of == nil || q.Of.Kind != flow.KCond {
+			return false
+		}
+		// either outcome of the leftmost predicate
+		hit := false
+		ast.Inspect(q.Of.Expr, func(z ast.Node) bool {
+			if ce, ok := z.(*ast.CallExpr); ok && leftmost(ce) {
+				hit = true
+			}
+			return true
+		})
+		if hit {
+			return true
+		}
+		// the declaration forms
+		if id, ok := ast.Unparen(q.Of.Expr).(*ast.Ident); ok && q.Kind == flow.KTrue {
+			if d := c.singleDef(pk, id); d != nil {
+				if ta, ok := ast.Unparen(d).(*ast.TypeAssertExpr); ok && ta.Type != nil {
+					t := nospace(str(ta.Type))
+					if strings.HasSuffix(t, "js.FuncDecl") || strings.HasSuffix(t, "js.ClassDecl") {
+						return true
+					}
+				}
+			}
+		}
+		// the non-default export prints declarations as statements
+		if q.Kind == flow.KFalse && strings.HasSuffix(nospace(str(q.Of.Expr)), ".Default") {
+			return true
+		}
+		return false
+	}
+	n := 0
+	for _, y := range g.Nodes {
+		a := y.Ast()
+		if a == nil || y.Kind != flow.KStmt || c.caseLabel(a) != "case *js.ExportStmt" {
+			continue
+		}
+		for _, call := range findCalls(info, a, false, load.Mod+"/js.(jsMinifier).minifyExpr") {
+			if len(call.Args) < 1 || !strings.HasSuffix(nospace(str(call.Args[0])), ".Decl") {
+				continue
+			}
+			n++
+			p := g.Path(flow.Search{From: []*flow.Node{head}, Goal: func(q *flow.Node) bool { return q == y }, Avoid: avoid})
+			c.R.Check(p == nil, rule, fmt.Sprintf("js.jsMinifier.minifyStmt/case *js.ExportStmt/default expression#%d is tested for a leading function or class", n), c.pos(call), "behind the leftmost-operand predicate (or the declaration form)",
+				"the exported expression is printed without a test whether it starts with `function` or `class`: `export default (function(){})()` loses its parentheses and is read as a declaration followed by `()`: "+pathStr(c, g, p))
+		}
+	}
+	c.R.Floor(rule, "prints of the default export", n, 1)
+}
+
+// R01.38: an operand that goes into a constructed binary expression as it is has the level the operator needs.
+func (c *Ctx) r0138(pk *packages.Package) {
+	const rule = "R01.38"
+	c.R.Rule(rule, "R09.18 covers operands wrapped in groupExpr. Where a rewrite of package js puts a branch of a conditional expression (expr.X / expr.Y of a *js.CondExpr — positions in which an assignment, an arrow function or another conditional stands without parentheses) into a new js.BinaryExpr{T, …} unwrapped, every path to the construction passes a test that gives the operand the level T needs: the true outcome of `binaryLeftPrecMap[T] <= exprPrec(operand)` (binaryRightPrecMap for the right operand), or of `exprPrec(operand) < C` with C at most js.OpAssign (below the assignment level only a parenthesised comma expression remains, which keeps its parentheses). `<= js.OpAssign` lets `a?b?1:2:a` become `a&&b?1:2`, which is `(a&&b)?1:2`")
+	info := pk.TypesInfo
+	var opAssign int64 = -1
+	for _, imp := range pk.Types.Imports() {
+		if imp.Path() == pjs {
+			if k, ok := imp.Scope().Lookup("OpAssign").(*types.Const); ok {
+				if v, ok := constant.Int64Val(k.Val()); ok {
+					opAssign = v
+				}
+			}
+		}
+	}
+	if opAssign < 0 {
+		c.R.Unres(rule, "js.OpAssign", "-", "constant not found in parse/js")
+		return
+	}
+	n := 0
+	for _, fd := range load.FuncDecls(pk) {
+		if fd.Body == nil {
+			continue
+		}
+		var g *flow.Graph
+		ast.Inspect(fd.Body, func(x ast.Node) bool {
+			cl, ok := x.(*ast.CompositeLit)
+			if !ok || cl.Type == nil || namedTypeName(info.TypeOf(cl.Type)) != pjs+".BinaryExpr" || len(cl.Elts) != 3 {
+				return true
+			}
+			var elts [3]ast.Expr
+			for i, e := range cl.Elts {
+				if kv, ok := e.(*ast.KeyValueExpr); ok {
+					switch str(kv.Key) {
+					case "Op":
+						elts[0] = kv.Value
+					case "X":
+						elts[1] = kv.Value
+					case "Y":
+						elts[2] = kv.Value
+					}
+				} else {
+					elts[i] = e
+				}
+			}
+			if elts[0] == nil {
+				return true
+			}
+			optv, ok := info.Types[elts[0]]
+			if !ok || optv.Value == nil {
+				return true
+			}
+			opText := nospace(str(elts[0]))
+			for side := 1; side <= 2; side++ {
+				se, ok := ast.Unparen(elts[side]).(*ast.SelectorExpr)
+				if !ok || (se.Sel.Name != "X" && se.Sel.Name != "Y") {
+					continue
+				}
+				if namedTypeName(info.TypeOf(se.X)) != pjs+".CondExpr" {
+					continue
+				}
+				n++
+				if g == nil {
+					g = c.graph(pk, fd)
+				}
+				y := g.NodeOf(cl)
+				operand := nospace(str(se))
+				table := map[int]string{1: "binaryLeftPrecMap", 2: "binaryRightPrecMap"}[side]
+				isPrecOf := func(e ast.Expr) bool {
+					ce, ok := ast.Unparen(e).(*ast.CallExpr)
+					return ok && strings.HasSuffix(calleeName(info, ce), "/js.exprPrec") && len(ce.Args) == 1 && nospace(str(ce.Args[0])) == operand
+				}
+				good := func(q *flow.Node) bool {
+					if q.Kind != flow.KTrue || q.Of == nil || q.Of.Kind != flow.KCond {
+						return false
+					}
+					be, ok := ast.Unparen(q.Of.Expr).(*ast.BinaryExpr)
+					if !ok {
+						return false
+					}
+					// normalise to  lo OP hi  with OP in {<, <=}
+					lo, hi, strict := be.X, be.Y, false
+					switch be.Op {
+					case token.LSS:
+						strict = true
+					case token.LEQ:
+					case token.GTR:
+						lo, hi, strict = be.Y, be.X, true
+					case token.GEQ:
+						lo, hi = be.Y, be.X
+					default:
+						return false
+					}
+					if isPrecOf(lo) {
+						// exprPrec(operand) < C
+						if v, isK := intConst(info, hi); isK {
+							return strict && v <= opAssign || !strict && v < opAssign
+						}
+						return false
+					}
+					if isPrecOf(hi) {
+						// TABLE[T] <= exprPrec(operand)
+						ie, ok := ast.Unparen(lo).(*ast.IndexExpr)
+						return ok && nospace(str(ie.X)) == table && nospace(str(ie.Index)) == opText
+					}
+					return false
+				}
+				if y == nil {
+					c.R.Unres(rule, fmt.Sprintf("js.%s/unwrapped operand#%d", load.FuncName(fd), n), c.pos(cl), "construction not found in the flow graph")
+					continue
+				}
+				p := g.Path(flow.Search{From: []*flow.Node{g.Entry}, Goal: func(q *flow.Node) bool { return q == y }, Avoid: good})
+				c.R.Check(p == nil, rule, fmt.Sprintf("js.%s/%s goes unwrapped into %s only at the operator's level#%d", load.FuncName(fd), operand, opText, n), c.pos(cl), "tested against "+table+"["+opText+"] or below js.OpAssign",
+					"the branch "+operand+" of the conditional becomes an operand of "+opText+" without parentheses and without a test that its level suffices: a nested conditional, an assignment or an arrow function there is re-associated (`a?b?1:2:a` → `a&&b?1:2`) or no longer parses (`a&&b=c`): "+pathStr(c, g, p))
+			}
+			return true
+		})
+	}
+	c.R.Floor(rule, "branches of a conditional used unwrapped as operands", n, 2)
+}
+
+// R01.39: the separating space is decided by the parser's own predicate.
+func (c *Ctx) r0139(pk *packages.Package) {
+	const rule = "R01.39"
+	c.R.Rule(rule, "jsMinifier.write puts a space between a keyword or name and what follows when that starts with a character that continues an identifier. The authority on that is the lexer that will read the output, js.IsIdentifierContinue (it includes `\\\\`, the start of a Unicode escape: `return \\\\u0061bc` must not become `return\\\\u0061bc`). The condition of the space in write calls js.IsIdentifierContinue on the written bytes directly, or through a function that only forwards to it; a predicate of its own (an ASCII fast path) cannot be compared with the lexer here and is reported as undecided")
+	info := pk.TypesInfo
+	fd := c.fn(rule, pk, "jsMinifier.write")
+	if fd == nil {
+		return
+	}
+	var param types.Object
+	if len(fd.Type.Params.List) > 0 && len(fd.Type.Params.List[0].Names) > 0 {
+		param = info.Defs[fd.Type.Params.List[0].Names[0]]
+	}
+	const want = pjs + ".IsIdentifierContinue"
+	forwards := func(d *ast.FuncDecl, p *packages.Package) bool {
+		if d == nil || d.Body == nil || len(d.Body.List) != 1 {
+			return false
+		}
+		rs, ok := d.Body.List[0].(*ast.ReturnStmt)
+		if !ok || len(rs.Results) != 1 {
+			return false
+		}
+		ce, ok := ast.Unparen(rs.Results[0]).(*ast.CallExpr)
+		return ok && calleeName(p.TypesInfo, ce) == want
+	}
+	n := 0
+	ast.Inspect(fd.Body, func(x ast.Node) bool {
+		ifs, ok := x.(*ast.IfStmt)
+		if !ok {
+			return true
+		}
+		// the if statement whose body writes the space
+		writesSpace := false
+		for _, ce := range allCalls(ifs.Body) {
+			if len(ce.Args) == 1 {
+				if s, ok := c.exprBytesText(pk, ce.Args[0]); ok && s == " " {
+					writesSpace = true
+				}
+			}
+		}
+		if !writesSpace {
+			return true
+		}
+		n++
+		var direct, foreign []string
+		for _, ce := range allCalls(ifs.Cond) {
+			onParam := false
+			for _, a := range ce.Args {
+				if id, ok := ast.Unparen(a).(*ast.Ident); ok && info.Uses[id] == param {
+					onParam = true
+				}
+			}
+			if !onParam {
+				continue
+			}
+			nm := calleeName(info, ce)
+			if nm == want {
+				direct = append(direct, nm)
+				continue
+			}
+			if p, d := c.calleeDecl(info, ce); d != nil && forwards(d, p) {
+				direct = append(direct, nm)
+				continue
+			}
+			foreign = append(foreign, nm[strings.LastIndex(nm, ".")+1:])
+		}
+		construct := fmt.Sprintf("js.jsMinifier.write/space#%d is decided by js.IsIdentifierContinue", n)
+		switch {
+		case len(foreign) > 0:
+			c.R.Unres(rule, construct, c.pos(ifs), "the space depends on "+strings.Join(foreign, ", ")+", a predicate of the minifier's own: whether it accepts every byte the lexer takes for an identifier part (letters, digits, `_`, `$`, `\\\\`, non-ASCII letters) is not decided here")
+		case len(direct) == 0:
+			c.R.Bad(rule, construct, c.pos(ifs), "the condition of the separating space does not consult js.IsIdentifierContinue on the bytes written")
+		default:
+			c.R.OK(rule, construct, c.pos(ifs), "calls js.IsIdentifierContinue on the written bytes")
+		}
+		return true
+	})
+	c.R.Floor(rule, "space decisions in write", n, 1)
+}
+
+// R01.40: inside the callee of `new`, the object of a member access is printed at member level.
+func (c *Ctx) r0140(pk *packages.Package) {
+	const rule = "R01.40"
+	c.R.Rule(rule, "ECMA-262 §13.3: the callee of `new` is a MemberExpression, whose object cannot be a call — `new (f()).b` constructs `f().b`, `new f().b` reads `.b` of `new f()`. The printers of the three member suffixes (cases *js.DotExpr, *js.IndexExpr, *js.TemplateExpr of jsMinifier.minifyExpr) print their object either at js.OpCall or at js.OpMember; the choice is evaluated here for every level the case can be asked to print at (and an object that is not a parenthesised optional chain): from js.OpNew upwards it is js.OpMember, so that a call keeps its parentheses")
+	info := pk.TypesInfo
+	fd := c.fn(rule, pk, "jsMinifier.minifyExpr")
+	if fd == nil {
+		return
+	}
+	levels := map[string]int64{}
+	var opNew, opCall, opMember int64 = -1, -1, -1
+	for _, imp := range pk.Types.Imports() {
+		if imp.Path() != pjs {
+			continue
+		}
+		for _, nm := range imp.Scope().Names() {
+			if k, ok := imp.Scope().Lookup(nm).(*types.Const); ok && strings.HasPrefix(nm, "Op") && namedTypeName(k.Type()) == pjs+".OpPrec" {
+				if v, ok := constant.Int64Val(k.Val()); ok {
+					levels[nm] = v
+				}
+			}
+		}
+	}
+	opNew, opCall, opMember = levels["OpNew"], levels["OpCall"], levels["OpMember"]
+	if opNew <= 0 || opCall <= 0 || opMember <= 0 {
+		c.R.Unres(rule, "js.OpPrec", "-", "precedence constants not found in parse/js")
+		return
+	}
+	var eval func(e ast.Expr, prec int64) (int64, bool)
+	eval = func(e ast.Expr, prec int64) (int64, bool) {
+		e = ast.Unparen(e)
+		if v, isK := intConst(info, e); isK {
+			return v, true
+		}
+		b2i := func(b bool) int64 {
+			if b {
+				return 1
+			}
+			return 0
+		}
+		switch x := e.(type) {
+		case *ast.Ident:
+			if x.Name == "prec" {
+				return prec, true
+			}
+		case *ast.UnaryExpr:
+			if x.Op == token.NOT {
+				if v, ok := eval(x.X, prec); ok {
+					return b2i(v == 0), true
+				}
+			}
+		case *ast.CallExpr:
+			if strings.HasSuffix(calleeName(info, x), "/js.isOptionalGroup") {
+				return 0, true // stipulated: the object is not a parenthesised optional chain
+			}
+		case *ast.BinaryExpr:
+			l, ok1 := eval(x.X, prec)
+			if !ok1 {
+				return 0, false
+			}
+			switch x.Op {
+			case token.LOR:
+				if l != 0 {
+					return 1, true
+				}
+				return eval(x.Y, prec)
+			case token.LAND:
+				if l == 0 {
+					return 0, true
+				}
+				return eval(x.Y, prec)
+			}
+			r, ok2 := eval(x.Y, prec)
+			if !ok2 {
+				return 0, false
+			}
+			switch x.Op {
+			case token.LSS:
+				return b2i(l < r), true
+			case token.LEQ:
+				return b2i(l <= r), true
+			case token.GTR:
+				return b2i(l > r), true
+			case token.GEQ:
+				return b2i(l >= r), true
+			case token.EQL:
+				return b2i(l == r), true
+			case token.NEQ:
+				return b2i(l != r), true
+			}
+		}
+		return 0, false
+	}
+	n := 0
+	ast.Inspect(fd.Body, func(x ast.Node) bool {
+		cc, ok := x.(*ast.CaseClause)
+		if !ok || len(cc.List) != 1 {
+			return true
+		}
+		label := nospace(str(cc.List[0]))
+		if label != "*js.DotExpr" && label != "*js.IndexExpr" && label != "*js.TemplateExpr" {
+			return true
+		}
+		ast.Inspect(cc, func(z ast.Node) bool {
+			ifs, ok := z.(*ast.IfStmt)
+			if !ok || ifs.Else == nil {
+				return true
+			}
+			eb, ok := ifs.Else.(*ast.BlockStmt)
+			if !ok {
+				return true
+			}
+			lvl := func(b *ast.BlockStmt) (int64, bool) {
+				if len(b.List) != 1 {
+					return 0, false
+				}
+				es, ok := b.List[0].(*ast.ExprStmt)
+				if !ok {
+					return 0, false
+				}
+				ce, ok := es.X.(*ast.CallExpr)
+				if !ok || !strings.HasSuffix(calleeName(info, ce), "/js.(jsMinifier).minifyExpr") || len(ce.Args) != 2 {
+					return 0, false
+				}
+				a0 := nospace(str(ce.Args[0]))
+				if a0 != "expr.X" && a0 != "expr.Tag" {
+					return 0, false
+				}
+				return intConst(info, ce.Args[1])
+			}
+			lt, ok1 := lvl(ifs.Body)
+			le, ok2 := lvl(eb)
+			if !ok1 || !ok2 || lt == le {
+				return true
+			}
+			n++
+			var bad []string
+			undecided := false
+			for nm, v := range levels {
+				if v < opNew {
+					continue
+				}
+				r, ok := eval(ifs.Cond, v)
+				if !ok {
+					undecided = true
+					break
+				}
+				got := le
+				if r != 0 {
+					got = lt
+				}
+				if got < opMember {
+					bad = append(bad, nm)
+				}
+			}
+			sort.Strings(bad)
+			construct := fmt.Sprintf("js.jsMinifier.minifyExpr/case %s/object level inside the callee of new", label)
+			switch {
+			case undecided:
+				c.R.Unres(rule, construct, c.pos(ifs), "the choice between the two levels is not a function of prec alone")
+			case len(bad) > 0:
+				c.R.Bad(rule, construct, c.pos(ifs), "asked to print at "+strings.Join(bad, ", ")+" the object of the member access is printed at js.OpCall: a call there loses its parentheses and `new (f()).b` becomes `new f().b`, which constructs f instead of f().b")
+			default:
+				c.R.OK(rule, construct, c.pos(ifs), "js.OpMember for every level from js.OpNew upwards")
+			}
+			return true
+		})
+		return true
+	})
+	c.R.Floor(rule, "member suffix printers that choose between two levels for their object", n, 3)
+}
+
+// elseIf returns the if statement of an `else if`, also when it is written as `else { if … }`.
+func elseIf(ifs *ast.IfStmt) *ast.IfStmt {
+	switch e := ifs.Else.(type) {
+	case *ast.IfStmt:
+		return e
+	case *ast.BlockStmt:
+		if len(e.List) == 1 {
+			if inner, ok := e.List[0].(*ast.IfStmt); ok {
+				return inner
+			}
+		}
+	}
+	return nil
 }
